@@ -47,7 +47,7 @@ BACKENDS = C.BACKENDS_ALL
 
 def gen_cases(tier, seed, shard, nshards):
     rnd = random.Random('c01-%d-%d' % (seed, shard))
-    plan = C.backend_plan(9000 if tier == 'quick' else 250000, BACKENDS)
+    plan = C.backend_plan(18000 if tier == 'quick' else 250000, BACKENDS)
     # the small deciding strata come first: a budget cut on a loaded machine must not starve them
     # per-recipient results that say nothing about some recipient (mapping without its key, sequence shorter
     # than the recipient list): such a recipient is neither delivered nor failed -- it is still outstanding
